@@ -425,6 +425,7 @@ def pipeline(path, seed, runs, full):
     hres, hbad = object_histories(lex, seed, 6 if full else 3)
     e2e["object_histories"] = hres
     rep.extend(hbad)
+    out["repeat_checked"] = 22 + len(hres)             # 17 re-runs, 5 fresh-object comparisons, the history steps
     out["e2e"], out["repeat"] = e2e, rep
     return out
 
